@@ -388,6 +388,7 @@ func (b *Body) loopEnv(lp *Loop, st State, phiVal func(*ssa.Phi) *Val) *CEnv {
 		}
 		if p.Comment != "" {
 			env.vars[p.Comment] = &CV{T: b.refT(v), Type: p.Type(), Sort: b.ft.sortOf(p.Type())}
+			env.phiNames = append(env.phiNames, p.Comment)
 		}
 		if p == lp.IdxPhi {
 			cnt := &CV{T: A("+", v.T, Int(1)), Type: types.Typ[types.Int], Sort: "Int"}
